@@ -8,6 +8,11 @@ Line protocol for the scalar-view model (shared by `model_c02` and `model_c03`).
   argT  : i8 u8 i16 u16 i32 u32 i64 u64   (C++ type of the TryToWrite argument)
 
 Answer:  cmp=<b> ok=<b> rd=<int|-|check> could=<b> try=<0|1|check> after=<hex> ok2=<b> rd2=<int|-|check>
+
+  STRUCT <p> <store hex|-> <ty> <kBits> <c> <o> <order> <mode> <path> <argT> <value>
+
+the same field, its container at byte `p` of the structure's backing store; `after` is the
+whole store (`storeTryToWrite`).
 -/
 import Emboss.Model.Scalar
 import Driver.Util
@@ -78,12 +83,10 @@ def configOk (ty : Ty) (k c o : Nat) (order : ByteOrder) (direct : Bool) : Bool 
    | .enum uw _ => decide (k ≤ uw)
    | _ => true)
 
-def handleScalar (line : String) : Option String :=
-  match line.splitOn " " with
-  | "SCALAR" :: rest =>
+def scalarLine (rest : List String) : String :=
     match rest with
     | [ty, k, c, o, order, mode, path, hex, argT, value] =>
-      some <| Id.run do
+      Id.run do
         let some ty := parseTy ty | return "bad-op"
         let some k := k.toNat? | return "bad-op"
         let some c := c.toNat? | return "bad-op"
@@ -109,6 +112,41 @@ def handleScalar (line : String) : Option String :=
         | .checkFailed => return s!"{pre} try=check"
         | .written v' =>
           return s!"{pre} try=1 after={showHexBytes v'.buf.bytes} ok2={b01 v'.ok} rd2={showRd v'}"
+    | _ => "bad-op"
+
+def handleScalar (line : String) : Option String :=
+  match line.splitOn " " with
+  | "SCALAR" :: rest => some (scalarLine rest)
+  | "STRUCT" :: rest =>
+    match rest with
+    | [p, hex, ty, k, c, o, order, mode, path, argT, value] =>
+      some <| Id.run do
+        let some p := p.toNat? | return "bad-op"
+        let some store := parseHexBytes hex | return "bad-op"
+        let some cN := c.toNat? | return "bad-op"
+        let some tyV := parseTy ty | return "bad-op"
+        let some kN := k.toNat? | return "bad-op"
+        let some oN := o.toNat? | return "bad-op"
+        let some orderV := (match order with
+          | "le" => some ByteOrder.little | "be" => some .big | "null" => some .null
+          | _ => none) | return "bad-op"
+        let some direct := (match mode with
+          | "direct" => some true | "offset" => some false | _ => none) | return "bad-op"
+        let some pathV := (match path with
+          | "opt" => some Path.opt | "noopt" => some .noopt | _ => none) | return "bad-op"
+        let some t := parseIntT argT | return "bad-op"
+        let some x := value.toInt? | return "bad-op"
+        -- the field's own view over its container (or over nothing when the store is short)
+        let cont := (containerOf store p (cN / 8)).getD []
+        let inner := scalarLine [ty, k, c, o, order, mode, path, showHexBytes cont, argT, value]
+        if inner == "bad-op" then return "bad-op"
+        let after := match storeTryToWrite store p orderV pathV cN tyV direct oN kN t x with
+          | .written s' => showHexBytes s'
+          | .refused => showHexBytes store
+          | .checkFailed => "check"
+        -- replace the container-level `after=` by the store-level one
+        return " ".intercalate ((inner.splitOn " ").map fun tok =>
+          if tok.startsWith "after=" then "after=" ++ after else tok)
     | _ => some "bad-op"
   | _ => none
 
